@@ -40,7 +40,7 @@ EXTENDS DiffOps
 CONSTANTS Facet,        \* "cases" (configuration enumeration) | "stream" (behaviours)
           Dev,          \* "none" or a named deviation
           MaxDim,       \* Gaussian lattice: dimensions 1..MaxDim (<= 3)
-          PinvMax,      \* largest field dimension with the rational pseudo-inverse design check
+          PinvMax,      \* largest 1-D node count with the rational pseudo-inverse design check (orders 0, 1)
           BigDims,      \* dimensions at the real dense/sparse threshold (diagonal forms only)
           MaxSteps,     \* stream facet: behaviour length
           StreamDists, StreamNs, StreamRngs
@@ -208,8 +208,11 @@ RangeLaw(L, P) ==
         PC == F(MM(P, C))
     IN F(MM(PC, P)) = P
 
+\* instances on which the rational pseudo-inverse stays inside TLC's 32-bit integers (measured)
+PinvOk(k) == IF k.pd = 2 THEN k.n = 2 ELSE IF k.order = 2 THEN k.n <= 5 ELSE k.n <= PinvMax
+
 GmrfLaw ==
-    (c.kind = "gmrf" /\ GDim(c) <= PinvMax) =>
+    (c.kind = "gmrf" /\ PinvOk(c)) =>
         LET D  == F(MR(DOp(OpCfg(c))))
             B  == F(IF c.order = 0 THEN <<>> ELSE MR(NullBasis(OpCfg(c))))
             Dt == F(MT(D))
@@ -461,6 +464,9 @@ ReturnShape == \A i \in Oks(hist) : (hist[i].N = 1 <=> hist[i].ret = "array") /\
 CondRefuses == \A i \in Samples(hist) : IsCond(hist[i].d) <=> hist[i].out = "error"
 ErrorConsumesNothing ==
     [][(Len(hist') > Len(hist) /\ hist'[Len(hist')].act = "sample" /\ hist'[Len(hist')].out = "error") => UNCHANGED <<gpos, lpos>>]_svars
+
+\* state constraint of the deep configuration: only requests served by a given generator (long equal-state chains)
+DeepOnlyLocal == \A i \in Samples(hist) : hist[i].rng # "none"
 
 EmitBehaviour ==
     (Emit /\ Facet = "stream" /\ Len(hist) = MaxSteps) => PrintT("@@CASE " \o ToJson([kind |-> "behaviour", steps |-> hist]) \o " @@END")
